@@ -10,7 +10,7 @@ comments denote the same expression; a number refers to the supplied input; `-`
 is a fresh anonymous source.  Statements only; the proofs are in
 `Tfv/Proofs/Notation.lean`, the abstract syntax (`Item`, `Spine`), its rendering
 `toks` and its meaning `den`/`denote` in `Tfv/Spec/Notation.lean`.
-Type annotations `e : T` are not covered here.
+Type annotations `e : T` are not covered here (see `C13Ann.lean`).
 -/
 namespace Tfv.C13
 open Tfv Tfv.Notation
@@ -140,16 +140,19 @@ theorem C13_tokens (specials blanks : String) (lead : List Char) (items : List (
     tokenize specials blanks (layout lead items) = items.map Prod.fst :=
   tokenize_layout specials blanks lead items hlead h
 
-/-- In the expression parser (any builder), the tokens from `#` to the end of the line are ignored. -/
+/-- In the expression parser (any builder), the tokens from `#` to the end of the line are ignored: the loop
+continues in exactly the state it was in — builder state, stack and "previous token" (comment and layout tokens do
+not count as the previous token). -/
 theorem C13_comments {S E : Type} (P : PLang) (B : Builder S E) (inputs : List E) (defaults : Bool)
     (junk : List String) (hj : "\n" ∉ junk) (n : Nat) (s : EState S E) (hc : s.comment = false)
     (rest : List String) :
     parseExprLoop P B inputs defaults (n + junk.length + 2) s ("#" :: junk ++ "\n" :: rest)
-    = parseExprLoop P B inputs defaults n { s with prevTok := "\n" } rest :=
+    = parseExprLoop P B inputs defaults n s rest :=
   comment_skip P B inputs defaults junk hj n s hc rest
 
 /-- Comments and line breaks anywhere (any builder): a token list without type annotations parses like the list
-with every comment (`#` up to the line break) and every line break removed. -/
+with every comment (`#` up to the line break) and every line break removed. (`C13a_trivia_ann` in `C13Ann.lean`
+removes the side condition.) -/
 theorem C13_trivia {S E : Type} (P : PLang) (B : Builder S E) (inputs : List E) (st0 : S) (ts : List String)
     (hcol : ":" ∉ stripTrivia false ts) :
     parseExprToks P B inputs st0 ts = parseExprToks P B inputs st0 (stripTrivia false ts) :=
